@@ -5,6 +5,10 @@ process itself is not safe once it has run threads (thread-parallel IDF / MDAJac
 monitor of a DOE scenario): a lock held by another thread at the time of the fork stays locked for ever
 in the child.  This module is run as ``python -m harness.c17_proc`` with a JSON ``{"case", "cfg"}`` on
 stdin and prints the observation of :func:`harness.c17.observe_config` as JSON on the last line of stdout.
+
+With ``{"mode": "opt", "case", "cfgs"}`` it runs the MDO scenarios of the optimisation stream instead, one result
+line per configuration as soon as it is finished (SciPy's SLSQP can cycle for ever inside compiled code on a
+degenerate problem; the harness kills this helper after a time-out and skips the unfinished configurations).
 """
 
 from __future__ import annotations
@@ -19,6 +23,12 @@ def main() -> int:
 
     common.quiet_gemseo()
     req = json.loads(sys.stdin.read())
+    if req.get("mode") == "opt":
+        for ck, settings in req["cfgs"]:
+            result = c17.optimise_one(req["case"], settings)
+            sys.stdout.write("\nC17-PROC-OPT " + json.dumps({"ck": ck, "result": result}) + "\n")
+            sys.stdout.flush()
+        return 0
     case, cfg = req["case"], req["cfg"]
     obs = c17.observe_config(case, cfg, c17.float_points(case), in_process=True)
     for rec in obs.get("evals", []):
